@@ -41,6 +41,7 @@ type textRegionParams struct {
 	Strips       int // 1, 2, 4, or 8
 	Symbols      []*bitmap.Bitmap
 	SymCodeLen   int
+	IAID         *iaidCtx // optional: cleared context with at least 2^SymCodeLen entries
 	DefPixel     int
 	CombOp       bitmap.CombOp
 	Transposed   bool
@@ -74,9 +75,12 @@ func decodeTextRegion(pool *bitmapPool, dec *mqDecoder, p *textRegionParams) (*b
 	iafs := &intCtx{}
 	iads := &intCtx{}
 	iait := &intCtx{}
-	iaid, err := newIAIDCtx(p.SymCodeLen)
-	if err != nil {
-		return nil, err
+	iaid := p.IAID
+	if iaid == nil {
+		iaid, err = newIAIDCtx(p.SymCodeLen)
+		if err != nil {
+			return nil, err
+		}
 	}
 	iari := &intCtx{}
 	iardw := &intCtx{}
